@@ -2,7 +2,8 @@
 
 Correspondence: the Gallina model (coq/theories/Path.v, extracted) against real pathlib /
 py7zr.helpers / SevenZipFile._sanitize_archive_arcname on every name of the property's alphabet,
-on names made of the components of the internal dummy directory, on directed names and on seeded
+on names made of the components of the dummy directory the check used before it was repaired (kept as a
+regression set), on directed names and on seeded
 random Unicode names.  Exploration: the same names against `spec_ok` written here in Python
 (independently of the model and of pathlib), then through writestr / writef on in-memory archives
 (rejected => ValueError and nothing changed; accepted => stored) and write / writeall over a
@@ -42,6 +43,8 @@ ASSUMPTIONS = [
 ALPHA = ["a", "b", "..", ".", "", "c:"]
 PREFIX = ["", "/", "//"]
 SUFFIX = ["", "/"]
+# components of the directory check_archive_path resolved '..' against before the fix e9f383b (names built from them
+# were accepted although they climb above the root); kept as a regression set
 DUMMY = ["foo", "boo", "fuga", "hoge", "a90sufoiasj09", "dafj08sajfa"]
 DUMMY_ALPHA = ["x", "..", "."] + DUMMY
 LAST = DUMMY[-1]
@@ -205,8 +208,6 @@ def model_rows(model, names):
 def classify(name, accepted, inside):
     """match keys of a verdict that differs from the independent definition"""
     if accepted and not inside:
-        if name[:1] != "/" and LAST in name.split("/"):
-            return {"kind": "check_archive_path", "via": "dummy-parent"}
         if name[:1] == "/":
             return {"kind": "check_archive_path", "via": "accepts-absolute"}
         return {"kind": "check_archive_path", "via": "accepts-climbing"}
